@@ -192,6 +192,13 @@ def random_field(rng: random.Random, used: set[str], versions: list[int], flex_f
     if can_tag and "nullableVersions" not in f and not use_common:
         _tag(rng, f, fv, flexible_fv, flex_from, tags, constructs, last)
         constructs.append("tagged:" + ("struct-array" if array else "struct"))
+    elif can_tag and "nullableVersions" in f and array and "default" not in f and not use_common and rng.random() < 0.6:
+        # tagged nullable struct array without default: the default is the empty array, null has to be sent explicitly; nullable in only
+        # some of the versions half of the time
+        _tag(rng, f, fv, flexible_fv, flex_from, tags, constructs, last)
+        if rng.random() < 0.5 and len(fv) > 1:
+            f["nullableVersions"] = f"{fv[-1]}+"
+        constructs.append("tagged:nullable-struct-array")
     elif can_tag and "nullableVersions" in f and not array and not use_common and rng.random() < 0.6:
         # tagged nullable struct: nullable wherever it is tagged, default null (the presence marker travels inside the tagged payload)
         _tag(rng, f, fv, flexible_fv, flex_from, tags, constructs, last)
